@@ -164,6 +164,7 @@ type VC struct {
 	nCalls   int
 	usedCon  map[string]bool
 	uncontracted map[string]bool
+	nEmb         int
 	havocked bool
 	mergedResults []SVal
 	assertDone    map[string]bool
@@ -502,6 +503,14 @@ func (vc *VC) embFn(T types.Type, field string) string {
 		// and are exactly as old as the object they are embedded in
 		// (embedded parts of non-escaping locals, which have negative ids, are far below zero)
 		vc.emit(fmt.Sprintf("(assert (forall ((o Int) (f Int)) (! (and (=> (< o 0) (< (%s o f) (- 1000000))) (=> (>= o 0) (and (< 0 (%s o f)) (= (>= (%s o f) $A0) (>= o $A0))))) :pattern ((%s o f)))))", n, n, n, n))
+		// each embedded part is an object of its own: the embedding is injective and the parts of
+		// different (type, field) pairs are distinct objects
+		if !vc.declared["embtag"] {
+			vc.declared["embtag"] = true
+			vc.emit("(declare-fun embtag (Int) Int)\n(declare-fun embpo (Int) Int)\n(declare-fun embpf (Int) Int)")
+		}
+		vc.nEmb++
+		vc.emit(fmt.Sprintf("(assert (forall ((o Int) (f Int)) (! (and (= (embtag (%s o f)) %d) (= (embpo (%s o f)) o) (= (embpf (%s o f)) f)) :pattern ((%s o f)))))", n, vc.nEmb, n, n, n))
 	}
 	return n
 }
